@@ -356,8 +356,11 @@ def _recv_attr(e):
 
 
 def rule_h(ctx):
+    # parity of the ids an endpoint opens (C13.a) and SETUP queued before the sender is released (C16.b)
     from .c13 import rule_a as parity
+    from .c16 import rule_b as setup_first
     parity(ctx)
+    setup_first(ctx)
 
 
 def rule_order(ctx):
@@ -367,4 +370,4 @@ def rule_order(ctx):
 
 
 RULES = [('C08.a', rule_a), ('C08.b', rule_b), ('C08.c', rule_c), ('C08.d', rule_d), ('C08.e', rule_e),
-         ('C08.f', rule_f), ('C08.g', rule_g), ('C05.a', rule_order)]
+         ('C08.f', rule_f), ('C08.g', rule_g), ('C05.a', rule_order), ('C13.a+C16.b', rule_h)]
